@@ -98,6 +98,8 @@ type PScn struct {
 	Lib     bool               `json:"lib,omitempty"`    // add a module-local package <mod>/lib (type Thing) for references
 	Zoo     int                `json:"zoo,omitempty"`    // a second module `zoo` (dot-less path, own go directive ZooGo) in directory zoo, required and replaced by the main module, with packages zoo/p (type P, tagged for rec) and zoo/dep: 1 = zoo/p is an entrypoint beside the others, 2 = zoo/p is the only entrypoint
 	ZooGo   string             `json:"zoo_go,omitempty"`
+	Peek    bool               `json:"peek,omitempty"`    // every GenerateType call first asks the Context for the doc of every type of every package the processed package imports (as a generator does for the types a type refers to) and renders nothing from it
+	ZooFns  bool               `json:"zoo_fns,omitempty"` // zoo/p declares functions A and B with error results (A returns B's among others) and the first package of the main module a function Q whose result comes from zoo/p's B and then from its A: what a generator renders from ResultsOf about zoo/p's A is a fact about zoo/p, whoever asked about Q before
 	Nested  bool               `json:"nested,omitempty"` // a second module <mod>/sub nested in the tree (own go.mod, replaced by ./sub), whose package <mod>/sub/p the first package imports: not a package of this module, whatever its path looks like
 }
 
@@ -250,7 +252,13 @@ func (s *PScn) materialise(dir string) error {
 		os.MkdirAll(filepath.Join(dir, "zoo", "p"), 0o755)
 		os.MkdirAll(filepath.Join(dir, "zoo", "dep"), 0o755)
 		os.WriteFile(filepath.Join(dir, "zoo", "go.mod"), []byte("module zoo\n\ngo "+zg+"\n"), 0o644)
-		os.WriteFile(filepath.Join(dir, "zoo", "p", "p.go"), []byte("// +gengo:rec\npackage p\n\ntype P int\n"), 0o644)
+		zsrc := "// +gengo:rec\npackage p\n\ntype P int\n"
+		if s.ZooFns {
+			zsrc += "\ntype Invalid struct{}\n\nfunc (*Invalid) Error() string { return \"invalid\" }\n\ntype NotFound struct{}\n\nfunc (*NotFound) Error() string { return \"not found\" }\n\n" +
+				"func B(i int) error {\n\tif i > 0 {\n\t\treturn &NotFound{}\n\t}\n\tif i < 0 {\n\t\treturn &Invalid{}\n\t}\n\treturn nil\n}\n\n" +
+				"func A(i int) error {\n\tif i == 7 {\n\t\treturn &Invalid{}\n\t}\n\treturn B(i)\n}\n"
+		}
+		os.WriteFile(filepath.Join(dir, "zoo", "p", "p.go"), []byte(zsrc), 0o644)
 		os.WriteFile(filepath.Join(dir, "zoo", "dep", "dep.go"), []byte("package dep\n\ntype D int\n\nfunc F() {}\n"), 0o644)
 		// the main module has to use the other one for the go tool to keep the requirement
 		os.MkdirAll(filepath.Join(dir, "usezoo"), 0o755)
@@ -290,6 +298,9 @@ func (s *PScn) materialise(dir string) error {
 		}
 		if err := os.WriteFile(filepath.Join(pd, "a.go"), []byte(src), 0o644); err != nil {
 			return err
+		}
+		if s.ZooFns && s.Zoo > 0 && i == 0 {
+			os.WriteFile(filepath.Join(pd, "q.go"), []byte("package "+p.Dir+"\n\nimport zp \"zoo/p\"\n\nfunc Q(i int) error {\n\tif i > 1 {\n\t\treturn zp.B(i)\n\t}\n\treturn zp.A(i)\n}\n"), 0o644)
 		}
 		for _, e := range p.Extra {
 			if e == "dangling" {
@@ -413,6 +424,7 @@ type script struct {
 	kill     string
 	cancelAt string
 	cancel   func()
+	peek     bool
 	calls    []string
 	bodies   map[string]*strings.Builder // pkgpath/gen → what was handed to Render, in order
 }
@@ -439,6 +451,21 @@ func (g *recState) do(c gengo.Context, pkg, typ string, isAlias bool) error {
 	}
 	if sc.cancelAt == key && sc.cancel != nil {
 		sc.cancel() // the caller gives up while the run is under way; this call goes on as scripted
+	}
+	if sc.peek {
+		for _, ip := range c.Package("").Pkg().Imports() {
+			if fp := c.Package(ip.Path()); fp != nil {
+				ts := fp.Types()
+				names := make([]string, 0, len(ts))
+				for name := range ts {
+					names = append(names, name)
+				}
+				sort.Strings(names)
+				for _, name := range names {
+					_, _ = c.Doc(ts[name])
+				}
+			}
+		}
 	}
 	n := g.count
 	g.count++
@@ -505,6 +532,14 @@ func (g *recState) do(c gengo.Context, pkg, typ string, isAlias bool) error {
 				c.Render(snippet.Block(it.S))
 			case "ref":
 				c.Render(snippet.T(it.S, snippet.Arg("ref", snippet.PkgExpose(it.Path, it.Name))))
+			case "results":
+				// what the resolver says about a function of the package, as a comment
+				if fn := c.Package("").Function(it.Name); fn != nil {
+					res, n := c.Package("").ResultsOf(fn)
+					c.Render(snippet.Block(fmt.Sprintf("// results of %s (%d): %s\n", it.Name, n, strings.ReplaceAll(res.String(), "\n", " "))))
+				} else {
+					c.Render(snippet.Block("// no function " + it.Name + "\n"))
+				}
 			case "nest":
 				parts := strings.SplitN(it.S, "\x1e", 3)
 				c.Render(snippet.Snippets(func(yield func(snippet.Snippet) bool) {
@@ -775,6 +810,7 @@ func (s *PScn) executeOnce(dir string, sc *script) (res string, errText string) 
 	for _, g := range s.Gens {
 		gs = append(gs, mkGenerator(g))
 	}
+	sc.peek = s.Peek
 	curScript = sc
 	all := s.All
 	if s.Alone > 0 {
